@@ -114,8 +114,8 @@ _blackbox_vlogger(int32_t target,
 	if (msg_len >= t->max_line_length) {
 	    chunk = msg_len_pt + sizeof(uint32_t); /* Reset */
 
-	    /* Leave this at QB_LOG_MAX_LEN so as not to overflow the blackbox */
-	    msg_len = qb_vsnprintf_serialize(chunk, QB_LOG_MAX_LEN,
+	    /* Bound this by what was reserved so as not to overflow the blackbox */
+	    msg_len = qb_vsnprintf_serialize(chunk, t->max_line_length,
 		"Log message too long to be stored in the blackbox.  "\
 		"Maximum is QB_LOG_MAX_LEN" , ap);
 	}
